@@ -85,6 +85,11 @@ def build_engine(engine, cfg):
         env[k] = v
     cmd = ["cargo", "build", "--release", "--offline"] + feats
     t0 = time.time()
+    if e.get("pre"):
+        # e.g. the schedule explorer's instrumented copy of the crate, regenerated from /repo's working tree
+        rc, out = run_cmd([sys.executable, os.path.join(VERIF, e["pre"])], cwd=VERIF)
+        if rc != 0:
+            raise Machinery("pre-build step %s failed:\n%s" % (e["pre"], out[-3000:]))
     rc, out = run_cmd(cmd, cwd=os.path.join(VERIF, e["dir"]), env=env)
     if rc != 0 and "verif_hooks.rs" in out and GUARD in env.get("RUSTFLAGS", ""):
         # The state-copy hook destructures every field on purpose; a tree that added a field to
